@@ -18,6 +18,7 @@ package main
 
 import (
 	"fmt"
+	"os"
 	"sort"
 	"time"
 
@@ -359,17 +360,24 @@ func emit(c *Config, kind string, ntrees int, ops []op) {
 		ch <- result{obs, w}
 	}()
 	var res result
+	hang := false
 	select {
 	case res = <-ch:
-	case <-time.After(20 * time.Second):
-		// an operation does not terminate (a cycle in the links): report and go on
+	case <-time.After(3 * time.Second):
+		// an operation does not terminate (a cycle in the links): report it and stop - the runaway
+		// goroutine cannot be killed and may eat all memory (Erase appends while it iterates)
 		res = result{obs: []Sx{T("o", T("hang"))}, w: &world{}}
+		hang = true
 	}
 	sops := make([]Sx, len(ops))
 	for i, o := range ops {
 		sops[i] = o.sx()
 	}
 	c.Emit(T("kind", A(kind)), T("nt", B(res.w.nIns >= 3 && res.w.nDel >= 1)), T("ntrees", I(ntrees)), T("ops", sops...), T("obs", res.obs...))
+	if hang {
+		c.Close()
+		os.Exit(0)
+	}
 }
 
 // ---------------------------------------------------------------------------------------------
@@ -635,11 +643,11 @@ func main() {
 	} else {
 		exhaustive(c, 6, 4)
 	}
-	for i := c.Count(1500, 40000); i > 0; i-- {
+	for i := c.Count(1500, 12000); i > 0; i-- {
 		g := random(c)
 		emit(c, fmt.Sprintf("rnd%d", g.ntrees), g.ntrees, g.ops)
 	}
-	for i := c.Count(500, 10000); i > 0; i-- {
+	for i := c.Count(500, 4000); i > 0; i-- {
 		g := walk(c)
 		emit(c, "walk", g.ntrees, g.ops)
 	}
